@@ -6,7 +6,30 @@ from pathlib import Path
 V = Path(__file__).resolve().parent.parent
 props = [json.loads(l) for l in (V / "properties.jsonl").read_text().splitlines() if l.strip()]
 
+_ODE_NOTE = ("the strict C reader is trusted for the statement shapes it accepts; name->slot binding goes through Species.alias and the "
+             "emitted IDX_ macros; rate coefficients are symbols held fixed; cusparse output is read as text only")
+_ODE_TECH = ("TLA+ spec OdeGen.tla model-checked with TLC over all small networks; TLC-chosen and random networks rendered by the real "
+             "generator for dense/sparse/cusparse/odeint, read back with a strict C reader and validated event by event by Trace_OdeGen.tla")
 CHECKS = {
+    "C01": dict(level="model_checking", design_ref="DESIGN.md §4 C01, §11", technique=_ODE_TECH, note=_ODE_NOTE,
+        text="TLC checks RhsIsMassAction/UnreactiveIsZero on the accumulation algorithm for every network in the bound; for every rendered "
+             "network and back-end each reaction's emitted terms must equal, as a polynomial over slots with symbolic rate coefficients, "
+             "the delta of the specification's Reaction/Heat/Cool action, and the structural facts (one statement per equation, thermal "
+             "wrapper) are checked at Finish."),
+    "C02": dict(level="model_checking", design_ref="DESIGN.md §4 C02, §11", technique=_ODE_TECH, note=_ODE_NOTE,
+        text="TLC checks JacIsDerivative/OmittedIsZero with the symbolic derivative operator D for every network in the bound; emitted "
+             "Jacobian terms are compared per reaction/modifier with the specification's delta, and in a second 'observe' pass TLC "
+             "evaluates jac = D(rhs) and omitted = 0 on the EMITTED right-hand side alone."),
+    "C03": dict(level="model_checking", design_ref="DESIGN.md §4 C03, §11", technique=_ODE_TECH, note=_ODE_NOTE,
+        text="TLC checks the CSR construction (well-formed, cells = touched cells) for every network in the bound; for every rendered "
+             "network TLC evaluates CsrWellFormed on the emitted rowptrs/colvals, equality of the CSR cells with the assigned cells, "
+             "macro sizes, every subscript against the declared sizes (incl. rate assignments) and the pattern file; the cell sets of "
+             "the four back-ends must agree."),
+    "C04": dict(level="model_checking", design_ref="DESIGN.md §4 C04, §11", technique=_ODE_TECH, note=_ODE_NOTE +
+                "; element/charge weights are the INTENDED compositions of the species pool, not what the parser reports",
+        text="TLC checks Conservation for all balanced small networks and all weight vectors; for rendered balanced real-species networks "
+             "(electrons under three spellings, ortho/para, isotopologues, ices) TLC evaluates conservation of every element and of "
+             "charge on the emitted right-hand side, and the generated GetElementAbund table is compared with the intended counts."),
     "C14": dict(
         level="model_checking", design_ref="DESIGN.md §4 C14, §11",
         technique="TLA+ spec NetworkEdit.tla model-checked with TLC over all bounded edit histories; TLC-simulated histories replayed on real "
